@@ -2122,7 +2122,10 @@ find_include(Filename &filename, bool angle_quotes, CPPFile::Source &source) con
   }
 
   // Now search the angle-include-path
-  if (angle_quotes && filename.resolve_filename(_angle_include_path)) {
+  // (An empty search path must not be searched: DSearchPath treats it as ".")
+  if (angle_quotes &&
+      (!filename.is_local() || !_angle_include_path.is_empty()) &&
+      filename.resolve_filename(_angle_include_path)) {
     source = CPPFile::S_system;
     return true;
   }
